@@ -21,7 +21,8 @@ static SF_BROADCAST_INFO_16K wb, rb ;
 SF_BROADCAST_INFO_16K * broadcast_var_alloc (void) { memset (&rb, 0, sizeof (rb)) ; return &rb ; }	/* the reader's block (calloc'ed in broadcast.c) */
 
 void h_bext_pair (void)
-{	int g = g_idx ;
+{	GHOST_HAVOC () ;
+	int g = g_idx ;
 	__CPROVER_havoc_object (&wb) ;		/* every field of the caller's broadcast info unconstrained */
 	wb.coding_history_size = HIST ;
 	W.header.ptr = hw ; W.header.len = HDR ; W.rwf_endian = SF_ENDIAN_LITTLE ; W.broadcast_16k = &wb ;
